@@ -201,7 +201,9 @@ Definition args_load (args : list arg) : lres :=
 Inductive lkind : Type :=
 | LRaw (d : option doc)                 (* RawLoader: None = zero bytes *)
 | LFile (c : option (option doc))       (* FileLoader: None = unreadable; Some None = empty file *)
-| LArgs (args : list arg).              (* ArgsLoader *)
+| LArgs (args : list arg)               (* ArgsLoader *)
+| LUser (c : pclass) (d : option doc).  (* a loader written by the user: its class is whatever Order()/Priority()
+                                           it implements; delivers fixed bytes (None = zero bytes) *)
 
 Record loader : Type := mkLoader { lid : nat; lk : lkind }.
 
@@ -211,12 +213,24 @@ Definition load (l : loader) : lres :=
   | LFile None => LoadErr
   | LFile (Some d) => LoadOk d
   | LArgs a => args_load a
+  | LUser _ d => LoadOk d
   end.
 
 Definition is_file (l : loader) : bool := match lk l with LFile _ => true | _ => false end.
 
-(* FileLoader implements Ordered (Order() = 0) and Priority; Raw/Args loaders implement neither *)
-Definition lclass (l : loader) : pclass := if is_file l then Prio 0 else Unord.
+Definition is_user (l : loader) : bool := match lk l with LUser _ _ => true | _ => false end.
+
+(* FileLoader implements Ordered (Order() = 0) and Priority; Raw/Args loaders implement neither;
+   a user's loader is what it declares *)
+Definition lclass (l : loader) : pclass :=
+  match lk l with
+  | LFile _ => Prio 0
+  | LUser c _ => c
+  | _ => Unord
+  end.
+
+(* priority-ordered or ordered: sorted to the front by SortOrderedComponents *)
+Definition has_order (l : loader) : bool := match lclass l with Unord => false | _ => true end.
 
 (* --- loader list operations and the options that reach them ------------------------------ *)
 
@@ -286,4 +300,70 @@ Fixpoint docs_of (seq : list loader) : option (list doc) :=
               | LoadOk (Some d), Some ds => Some (d :: ds)
               | _, _ => None
               end
+  end.
+
+(* --- one Configure used in several steps --------------------------------------------------------
+   configure.go keeps two pieces of state: the loader list and the binder's configuration.
+     SetLoaders(ls)  : loaders = ls
+     AddLoaders(ls)  : loaders = loaders ++ ls
+     Initialize()    : loaders = SortOrderedComponents(loaders)   -- the SORTED list is stored back
+                       for each loader in that order: LoadConfig, then Binder.SetConfig (merge INTO the
+                       configuration already present); the first error / panic ends the pass, what was
+                       merged before stays.
+   Nothing resets the binder, so a later Initialize merges every document once more on top. *)
+
+Inductive rstatus : Type := SOk | SErr | SPanic.
+
+(* the loaders consulted by one pass, in order: documents delivered, how the pass ended, and the loaders
+   whose LoadConfig was called (the failing one included) *)
+Fixpoint consult (seq : list loader) : list doc * rstatus * list loader :=
+  match seq with
+  | [] => ([], SOk, [])
+  | l :: r =>
+      match load l with
+      | LoadPanic => ([], SPanic, [l])
+      | LoadErr => ([], SErr, [l])
+      | LoadOk od =>
+          let '(ds, st, used) := consult r in
+          (match od with Some d => d :: ds | None => ds end, st, l :: used)
+      end
+  end.
+
+Definition run_partial (cfg : doc) (seq : list loader) : doc * rstatus * list loader :=
+  let '(ds, st, used) := consult seq in (fold_left merge ds cfg, st, used).
+
+Inductive cstep : Type :=
+| CSet (ls : list loader)
+| CAdd (ls : list loader)
+| CInit.
+
+Record cstate : Type := mkCState { cs_loaders : list loader; cs_cfg : doc }.
+
+(* Stored: Initialize stores the sorted list back (configure.go as written).
+   AsAdded: the specification's view — the list stays as the user built it and every Initialize
+   sorts ALL loaders configured so far. Proofs/ConfigMergeProofs.v: the two agree on every history. *)
+Inductive hmode : Type := Stored | AsAdded.
+
+Definition cstep_run (m : hmode) (s : cstate) (st : cstep) : cstate * option (rstatus * list loader) :=
+  match st with
+  | CSet ls => (mkCState ls (cs_cfg s), None)
+  | CAdd ls => (mkCState (add_loaders (cs_loaders s) ls) (cs_cfg s), None)
+  | CInit =>
+      let seq := sequence (cs_loaders s) in
+      let '(cfg, r, used) := run_partial (cs_cfg s) seq in
+      (mkCState (match m with Stored => seq | AsAdded => cs_loaders s end) cfg, Some (r, used))
+  end.
+
+(* the state after every step, with the result of the step when it is an Initialize *)
+Fixpoint hist_trace (m : hmode) (s : cstate) (steps : list cstep)
+  : list (doc * option (rstatus * list loader)) :=
+  match steps with
+  | [] => []
+  | st :: r => let '(s', o) := cstep_run m s st in (cs_cfg s', o) :: hist_trace m s' r
+  end.
+
+Fixpoint hist_final (m : hmode) (s : cstate) (steps : list cstep) : cstate :=
+  match steps with
+  | [] => s
+  | st :: r => hist_final m (fst (cstep_run m s st)) r
   end.
